@@ -336,7 +336,221 @@ def gen_cases(rng, tier):
                     else:
                         cases.append(mk(l, r, ['unreach', f, es], ['unreach', 'sweep']))
     two_l, two_r = caps_pair([W.IPV4, W.IPV6, W.IPV6_VPN, W.IPV6_MPLS, W.IPV4_MPLS, W.IPV4_VPN], as4=(False, True))
+    cases += audit_cases(rng)
     for m in bad:
         cases.append(mk(two_l, two_r, m, ['malformed']))
         cases.append(mk(*caps_pair([W.IPV4, W.IPV6, W.IPV6_VPN, W.IPV6_MPLS, W.IPV4_MPLS, W.IPV4_VPN]), m, ['malformed']))
     return cases
+
+
+# ======================================================================================
+# Audit classes: ENUMERATED ON EVERY RUN (both tiers), one class per clause of the property
+# text / branch of the anchored code, with the values on both sides of every comparison.
+# ======================================================================================
+A0 = [[0, 1, 0, 0, ['b', []]], [1, 2, 0, 0, ['b', seg(2, [65001])]]]
+
+def _opaque(n, code=222, flags=0xC0, seed=3):
+    return [2, code, flags, 0, ['pat', n, seed]]
+
+def _v4_32(i): return [0, ['v4', 32, [10] + W.be32(i)[1:]]]
+def _v6_128(i): return [0, ['v6', 128, [32, 1, 13, 184] + [0] * 8 + W.be32(i)]]
+
+def audit_cases(rng):
+    cs = []
+    def add(l, r, m, *tags):
+        cs.append(mk(l, r, m, ['audit'] + list(tags)))
+
+    # ---- a1. exact-fit sweep: for each wire form, the attribute pad runs through one whole entry size, so
+    # the last entry of the first frame ends exactly at max-1, max, and would end at max+1
+    forms = [('v4leg', W.IPV4, NH4, 6, 5), ('v6mp', W.IPV6, NH6, 7, 17), ('vpn6', W.IPV6_VPN, NH6, 8, 25), ('lab4', W.IPV4_MPLS, NH4, 4, 8)]
+    for name, f, nh, kind, esize in forms:
+        for ap in (0, 3):
+            for pad in range(0, esize + (4 if ap else 0) + 1):
+                l, r = caps_pair([f, W.IPV4], lmode=ap, rmode=ap, ext=(False, False))
+                n = 2 * (4096 // (esize + (4 if ap else 0))) // 1 // 2 + 40
+                attrs = A0 + [_opaque(300 + pad)]
+                add(l, r, ['reach', f, nh, attrs, [['bulk', kind, n, 100]]], 'fit_sweep', 'fit_' + name)
+    # withdrawals have no attributes: a first explicit entry of 1..5 octets shifts the rest
+    for ap in (0, 3):
+        for m in (0, 8, 16, 24, 32):
+            l, r = caps_pair([W.IPV4, W.IPV6], lmode=ap, rmode=ap, ext=(False, False))
+            add(l, r, ['unreach', W.IPV4, [['x', [[7, ['v4', m, [10, 1, 2, 3][:(m + 7) // 8] + [0] * (4 - (m + 7) // 8)]]]], ['bulk', 6, 900, 5]]], 'fit_sweep', 'fit_v4leg_unreach')
+        for m in range(0, 129, 8):
+            l, r = caps_pair([W.IPV4, W.IPV6], lmode=ap, rmode=ap, ext=(False, False))
+            a = ([32, 1, 13, 184] + [1] * 12)[:(m + 7) // 8] + [0] * (16 - (m + 7) // 8)
+            add(l, r, ['unreach', W.IPV6, [['x', [[7, ['v6', m, a]]]], ['bulk', 7, 300, 5]]], 'fit_sweep', 'fit_v6mp_unreach')
+    # extended message: the same at 65535 (legacy reach and MP unreach)
+    for pad in range(0, 6):
+        l, r = caps_pair([W.IPV4, W.IPV6], ext=(True, True))
+        add(l, r, ['reach', W.IPV4, NH4, A0 + [_opaque(60000 + pad)], [['bulk', 6, 1200, 9]]], 'fit_sweep', 'fit_ext65535')
+    # ---- a2. attributes: a frame that holds the attributes and exactly one / zero entries (4096 and 65535)
+    for f, nh, base in ((W.IPV4, NH4, 4096 - 23 - 7 - 5 - 14), (W.IPV6, NH6, 4096 - 23 - 25 - 17 - 14)):
+        for d in range(-3, 4):
+            l, r = caps_pair([W.IPV4, W.IPV6], ext=(False, False))
+            add(l, r, ['reach', f, nh, A0 + [_opaque(base - 4 + d)], [['x', [_v4_32(1) if f == W.IPV4 else _v6_128(1)]]]], 'attr_room_boundary')
+    # ---- a3. attribute length forms: value sizes around the extended-length switch, stored flags with / without
+    # the extended bit, every attribute code the code knows with a legal value
+    for n in (0, 1, 254, 255, 256, 257):
+        for fl in (0xC0, 0xD0, 0xE0, 0x80, 0x90):
+            l, r = caps_pair([W.IPV4])
+            add(l, r, ['reach', W.IPV4, NH4, A0 + [_opaque(n, flags=fl)], [['x', [_v4_32(2)]]]], 'attr_len_switch')
+        if n % 4 == 0 and n:
+            l, r = caps_pair([W.IPV4])
+            add(l, r, ['reach', W.IPV4, NH4, A0 + [[1, 8, 0, 0, ['pat', n, 1]]], [['x', [_v4_32(2)]]]], 'attr_len_switch')
+    known = [[0, 4, 0, 7, ['b', []]], [0, 5, 0, 100, ['b', []]], [1, 6, 0, 0, ['b', []]], [1, 7, 0, 0, ['b', W.be32(65001) + [192, 0, 2, 9]]],
+             [1, 8, 0, 0, ['b', [255, 255, 255, 1]]], [0, 9, 0, 167772161, ['b', []]], [1, 10, 0, 0, ['b', [10, 0, 0, 1, 10, 0, 0, 2]]],
+             [1, 16, 0, 0, ['b', [0, 2, 253, 232, 0, 0, 0, 100]]], [1, 23, 0, 0, ['b', [0, 8, 0, 4, 1, 0, 0, 0]]], [1, 26, 0, 0, ['b', [1, 0, 11, 0, 0, 0, 0, 0, 0, 0, 5]]],
+             [1, 29, 0, 0, ['b', [4, 2, 0, 1, 9]]], [1, 32, 0, 0, ['b', W.be32(65001) + W.be32(1) + W.be32(2)]], [1, 40, 0, 0, ['b', [1, 0, 7, 0, 0, 0, 0, 0, 0, 5]]]]
+    for a in known:
+        for two in (True, False):
+            l, r = caps_pair([W.IPV4], as4=(two, True))
+            add(l, r, ['reach', W.IPV4, NH4, A0 + [a], [['x', [_v4_32(3)]]]], 'attr_each_code')
+    l, r = caps_pair([W.IPV4])
+    add(l, r, ['reach', W.IPV4, NH4, A0 + known, [['x', [_v4_32(3)]]]], 'attr_each_code')
+    # ---- a4. AS_PATH shapes on both AS widths: segment sizes 1/63/64/127/128/254/255 (the 4-octet value
+    # crosses 255 octets at 64 ASes, the 2-octet one at 127), several segments, AS numbers at the
+    # two-octet boundary in first / last position, AS_TRANS itself, sets and confederation segments
+    for as4 in ((True, True), (False, True)):
+        for n in (1, 63, 64, 126, 127, 128, 254, 255):
+            for asn in (65001, 70000):
+                l, r = caps_pair([W.IPV4], as4=as4)
+                path = seg(2, [asn] + [64512 + k % 100 for k in range(n - 1)])
+                add(l, r, ['reach', W.IPV4, NH4, [A0[0], [1, 2, 0, 0, ['b', path]]], [['x', [_v4_32(4)]]]], 'aspath_segment_size')
+        for asns in ([65534], [65535], [65536], [23456], [65535, 65536], [65536, 65535], [1, 65536, 2], [4294967295], [0]):
+            l, r = caps_pair([W.IPV4], as4=as4)
+            add(l, r, ['reach', W.IPV4, NH4, [A0[0], [1, 2, 0, 0, ['b', seg(2, asns)]]], [['x', [_v4_32(4)]]]], 'aspath_as2_boundary')
+        shapes = [[], seg(1, [65001, 65002]), seg(1, [70000]), seg(2, [65001]) + seg(1, [70000, 65002]) + seg(2, [65003]),
+                  seg(3, [65100]) + seg(2, [65001]), seg(3, [65100]), seg(4, [65100, 65101]) + seg(2, [65001, 65002]),
+                  seg(2, [65001] * 255) + seg(2, [65002] * 255) + seg(2, [70000])]
+        for p in shapes:
+            l, r = caps_pair([W.IPV4], as4=as4)
+            add(l, r, ['reach', W.IPV4, NH4, [A0[0], [1, 2, 0, 0, ['b', p]]], [['x', [_v4_32(4)]]]], 'aspath_shapes')
+        for agg in (0, 65535, 65536, 23456, 4294967295):
+            for path in ([65001], [70000]):
+                l, r = caps_pair([W.IPV4], as4=as4)
+                add(l, r, ['reach', W.IPV4, NH4, [A0[0], [1, 2, 0, 0, ['b', seg(2, path)]], [1, 7, 0, 0, ['b', W.be32(agg) + [192, 0, 2, 9]]]],
+                           [['x', [_v4_32(4)]]]], 'aggregator_boundary')
+    # ---- a5. every prefix length of both address sizes, canonical and with host bits, path ids at the edges
+    for ap in (0, 3):
+        l, r = caps_pair([W.IPV4, W.IPV6], lmode=ap, rmode=ap)
+        v4 = [[[0, 1, 4294967295][m % 3], ['v4', m, W.be32((0xffffffff << (32 - m)) & 0xffffffff if m else 0)]] for m in range(33)]
+        add(l, r, ['reach', W.IPV4, NH4, A0, [['x', v4]]], 'every_mask')
+        add(l, r, ['unreach', W.IPV4, [['x', v4]]], 'every_mask')
+        add(l, r, ['reach', W.IPV4, NH4, A0, [['x', [[1, ['v4', m, [255, 255, 255, 255]]] for m in range(33)]]]], 'every_mask', 'host_bits')
+        for lo in (0, 43, 86):
+            v6 = []
+            for m in range(lo, min(lo + 43, 129)):
+                full = ((1 << 128) - 1) ^ ((1 << (128 - m)) - 1)
+                v6.append([[0, 1, 4294967295][m % 3], ['v6', m, list(full.to_bytes(16, 'big'))]])
+            add(l, r, ['reach', W.IPV6, NH6, A0, [['x', v6]]], 'every_mask')
+            add(l, r, ['unreach', W.IPV6, [['x', v6]]], 'every_mask')
+    # ---- a6. ADD-PATH modes 0..3 on both sides, extended message and AS width on one / both sides: every run
+    import itertools
+    for lm, rm in itertools.product(range(4), range(4)):
+        for f in (W.IPV4, W.IPV6):
+            l, r = caps_pair([W.IPV4, W.IPV6], lmode=lm, rmode=rm)
+            es = [['x', [[5, ['v4', 24, [10, 9, 8, 0]]], [6, ['v4', 8, [11, 0, 0, 0]]]] if f == W.IPV4 else [[5, ['v6', 64, [32, 1, 13, 184] + [0] * 12]]]]]
+            add(l, r, ['reach', f, NH4 if f == W.IPV4 else NH6, A0, es], 'addpath_matrix')
+            add(l, r, ['unreach', f, es], 'addpath_matrix')
+    for e1, e2, a1, a2 in itertools.product((False, True), repeat=4):
+        l, r = caps_pair([W.IPV4, W.IPV6], ext=(e1, e2), as4=(a1, a2))
+        add(l, r, ['reach', W.IPV4, NH4, [A0[0], [1, 2, 0, 0, ['b', seg(2, [70000, 65001])]], _opaque(4080)], [['x', [_v4_32(5)]]]], 'session_matrix')
+    # negotiation corner cases: duplicate / conflicting capabilities, ADD-PATH for a family without MP, one-sided RFC 8950
+    mp4, mp6 = ('mp', W.IPV4), ('mp', W.IPV6)
+    odd = [
+        ([mp4, mp4, ('addpath', [(W.IPV4, 1)]), ('addpath', [(W.IPV4, 3)])], [mp4, ('addpath', [(W.IPV4, 3), (W.IPV4, 1)])]),
+        ([mp4, ('addpath', [(W.IPV6, 3)])], [mp4, ('addpath', [(W.IPV4, 3), (W.IPV6, 3)])]),
+        ([mp4, ('addpath', [(W.IPV4, 3)]), mp4], [mp4, ('addpath', [(W.IPV4, 3)])]),
+        ([mp4, ('enh', [(W.IPV4, 2)])], [mp4]),
+        ([mp4, ('enh', [(W.IPV4, 2)])], [mp4, ('enh', [(W.IPV4, 2)])]),
+        ([mp4, ('enh', [(W.IPV4, 1)])], [mp4, ('enh', [(W.IPV4, 1)])]),
+        ([mp4, mp6, ('enh', [(W.IPV6, 2)])], [mp4, mp6, ('enh', [(W.IPV6, 2)])]),
+        ([mp4, mp6, ('enh', [(W.IPV4_VPN, 2)]), ('mp', W.IPV4_VPN)], [mp4, mp6, ('mp', W.IPV4_VPN), ('enh', [(W.IPV4_VPN, 2)])]),
+        ([mp4, ('as4', 1), ('as4', 2), ('extmsg',), ('extmsg',)], [mp4, ('as4', 3), ('extmsg',)]),
+        ([mp6, mp4], [mp4, mp6]),
+    ]
+    for lc, rc in odd:
+        for nh in (NH4, NH6, NH6LL):
+            add(lc, rc, ['reach', W.IPV4, nh, A0, [['x', [[9, ['v4', 24, [10, 9, 8, 0]]]]]]], 'negotiate_corner')
+        add(lc, rc, ['unreach', W.IPV4, [['x', [[9, ['v4', 24, [10, 9, 8, 0]]]]]]], 'negotiate_corner')
+        add(lc, rc, ['eor', W.IPV4], 'negotiate_corner')
+    # ---- a7. NOTIFICATION: every (code, subcode) the constructor distinguishes, with and without data; data at the frame limit
+    for code in range(0, 9):
+        for sub in range(0, 13):
+            add(std_caps()[0], std_caps()[1], ['notif', code, sub, ['b', []]], 'notif_matrix')
+            add(std_caps()[0], std_caps()[1], ['notif', code, sub, ['b', [code, sub, 7]]], 'notif_matrix')
+    for ext, lim in (((False, False), 4096), ((True, True), 65535)):
+        for d in (-2, -1, 0, 1, 2):
+            l, r = caps_pair([W.IPV4], ext=ext)
+            add(l, r, ['notif', 9, 9, ['pat', lim - 21 + d, 1]], 'notif_limit')
+    # ---- a8. OPEN: AS number / hold time / identifier edges; capability sums 250..256; each capability kind at
+    # its one-octet edge; empty lists; flag / timer edges
+    for asn in (1, 23455, 23456, 23457, 65534, 65535, 65536, 4294967295):
+        for hold in (0, 3, 65535):
+            caps = [('mp', W.IPV4), ('as4', asn)]
+            add(std_caps()[0], std_caps()[1], ['open', asn, hold, 0x0a000001, caps], 'open_fields')
+    for rid in (1, 0x7fffffff, 0xdfffffff):
+        add(std_caps()[0], std_caps()[1], ['open', 65001, 90, rid, [('mp', W.IPV4)]], 'open_fields')
+    for total in range(248, 259):
+        # total capability octets = 6 * k + (2 + n)
+        k = 20
+        n = total - 6 * k - 2
+        caps = [('mp', ALL_FAMILIES[j % 19]) for j in range(k)] + [('unknown', 77, [j % 256 for j in range(n)])]
+        add(std_caps()[0], std_caps()[1], ['open', 65001, 90, 0x0a000001, caps], 'open_cap_sum')
+    for n in (0, 1, 250, 251, 252, 253, 254, 255, 256, 257):
+        add(std_caps()[0], std_caps()[1], ['open', 65001, 90, 0x0a000001, [('unknown', 200, [j % 256 for j in range(n)])]], 'open_cap_value_len')
+    for n in (0, 1, 41, 42, 43):
+        add(std_caps()[0], std_caps()[1], ['open', 65001, 90, 0x0a000001, [('enh', [(W.IPV4, 2)] * n)]], 'open_cap_counts')
+    for n in (0, 1, 62, 63, 64):
+        add(std_caps()[0], std_caps()[1], ['open', 65001, 90, 0x0a000001, [('addpath', [(W.IPV4, 1 + j % 3) for j in range(n)])]], 'open_cap_counts')
+        add(std_caps()[0], std_caps()[1], ['open', 65001, 90, 0x0a000001, [('gr', 15, 4095, [(W.IPV6, 128 * (j % 2)) for j in range(n)])]], 'open_cap_counts')
+    for n in (0, 1, 35, 36, 37):
+        add(std_caps()[0], std_caps()[1], ['open', 65001, 90, 0x0a000001, [('llgr', [(W.IPV4, 128 * (j % 2), [0, 1, 255, 256, 65535, 65536, 16777215][j % 7]) for j in range(n)])]], 'open_cap_counts')
+    for h, d in ((0, 0), (1, 0), (0, 1), (126, 127), (127, 127), (253, 0), (0, 253), (254, 0), (255, 0), (200, 100)):
+        add(std_caps()[0], std_caps()[1], ['open', 65001, 90, 0x0a000001, [('fqdn', [97 + j % 26 for j in range(h)], [65 + j % 26 for j in range(d)])]], 'open_cap_counts')
+    for fl in (0, 1, 8, 15):
+        for t in (0, 1, 4095):
+            add(std_caps()[0], std_caps()[1], ['open', 65001, 90, 0x0a000001, [('gr', fl, t, [(W.IPV4, 0), (W.EVPN, 128)])]], 'open_gr_fields')
+    allcaps = [('mp', W.EVPN), ('rr',), ('enh', [(W.IPV4, 2)]), ('extmsg',), ('gr', 4, 120, []), ('as4', 65001), ('addpath', [(W.LS, 3)]), ('err',),
+               ('llgr', [(W.RTC, 0, 1)]), ('fqdn', [114], [100]), ('unknown', 0, []), ('unknown', 255, [1]), ('unknown', 3, [1, 2])]
+    add(std_caps()[0], std_caps()[1], ['open', 65001, 90, 0x0a000001, allcaps], 'open_every_kind')
+    for c in allcaps:
+        add(std_caps()[0], std_caps()[1], ['open', 65001, 90, 0x0a000001, [c]], 'open_every_kind')
+    # ---- a9. label stacks: every depth up to the one-octet NLRI length (24 * labels (+ 64) + bits <= 255), label
+    # values at both ends, every RD type; announce and withdraw
+    for f, kind, vpn, v6 in ((W.IPV4_MPLS, 'lab4', 0, False), (W.IPV6_MPLS, 'lab6', 0, True), (W.IPV4_VPN, 'vpn4', 64, False), (W.IPV6_VPN, 'vpn6', 64, True)):
+        maxb = 128 if v6 else 32
+        addr = ([32, 1, 13, 184] + [255] * 12) if v6 else [10, 255, 255, 255]
+        for L in range(1, 10):
+            for bits in (255, 254):      # NLRI length exactly 255 / 254 bits
+                m = bits - 24 * L - vpn
+                if 0 <= m <= maxb:
+                    nb = (m + 7) // 8
+                    a = addr[:nb] + [0] * (len(addr) - nb)
+                    if m % 8 and nb: a[nb - 1] &= (0xff << (8 - m % 8)) & 0xff
+                    n = [kind, [[0, 1048575, 16][j % 3] for j in range(L)]] + ([[0, [0, 1, 2][L % 3], 0, 1, 0, 0, 0, L]] if vpn else []) + [m, a]
+                    l, r = caps_pair([f])
+                    add(l, r, ['reach', f, NH6 if v6 else NH4, A0, [['x', [[0, n]]]]], 'label_depth')
+                    add(l, r, ['unreach', f, [['x', [[0, n]]]]], 'label_depth')
+            for m in (0, maxb):
+                if 24 * L + vpn + m <= 255:
+                    nb = (m + 7) // 8
+                    n = [kind, [1048575] * L] + ([[0, L % 3, 0, 1, 0, 0, 0, L]] if vpn else []) + [m, addr[:nb] + [0] * (len(addr) - nb)]
+                    l, r = caps_pair([f], lmode=3, rmode=3)
+                    add(l, r, ['reach', f, NH6 if v6 else NH4, A0, [['x', [[4294967295, n]]]]], 'label_depth')
+                    add(l, r, ['unreach', f, [['x', [[4294967295, n]]]]], 'label_depth')
+    # ---- a10. End-of-RIB / ROUTE-REFRESH / empty updates for every family with RFC 8950 on and off
+    for f in ALL_FAMILIES[:19]:
+        for enh in (False, True):
+            l, r = caps_pair([f, W.IPV4], extnh=enh)
+            add(l, r, ['eor', f], 'eor_every_family')
+            add(l, r, ['eor', W.IPV4], 'eor_every_family')
+    # next hop forms for IPv4 over MP_REACH (RFC 8950 negotiated)
+    for nh in (NH4, NH6, NH6LL):
+        l, r = caps_pair([W.IPV4], extnh=True)
+        add(l, r, ['reach', W.IPV4, nh, A0, [['x', [_v4_32(6)]]]], 'ipv4_over_mp')
+        add(l, r, ['unreach', W.IPV4, [['x', [_v4_32(6)]]]], 'ipv4_over_mp')
+    return cs
+
+def std_caps():
+    return caps_pair([W.IPV4, W.IPV6])
